@@ -466,7 +466,7 @@ def mpf_bernoulli(n, prec, rnd=None):
         if case == 0: b = mpf_rdiv_int(m+3, f3, wp)
         if case == 2: b = mpf_rdiv_int(m+3, f3, wp)
         if case == 4: b = mpf_rdiv_int(-m-3, f6, wp)
-        s = from_man_exp(s, sexp, wp)
+        s = from_man_exp(s, sexp, wp, round_fast)
         b = mpf_div(mpf_sub(b, s, wp), from_int(bin), wp)
         numbers[m] = b
         m += 2
@@ -696,7 +696,7 @@ def mpf_psi0(x, prec, rnd=round_fast):
             x += one
     x -= one
     # Logarithmic term
-    s += to_fixed(mpf_log(from_man_exp(x, -wp, wp), wp), wp)
+    s += to_fixed(mpf_log(from_man_exp(x, -wp, wp, round_fast), wp), wp)
     # Endpoint term in Euler-Maclaurin expansion
     s += (one << wp) // (2*x)
     # Euler-Maclaurin remainder sum
@@ -1044,7 +1044,7 @@ def mpf_zeta(s, prec, rnd=round_fast, alt=0):
         else:
             t += w
     t = t // (-d[n])
-    t = from_man_exp(t, -wp, wp)
+    t = from_man_exp(t, -wp, wp, round_fast)
     if alt:
         return mpf_pos(t, prec, rnd)
     else:
@@ -1133,8 +1133,8 @@ def mpc_zeta(s, prec, rnd=round_fast, alt=0, force=False):
         tim += (w * wim) >> wp
     tre //= (-d[n])
     tim //= (-d[n])
-    tre = from_man_exp(tre, -wp, wp)
-    tim = from_man_exp(tim, -wp, wp)
+    tre = from_man_exp(tre, -wp, wp, round_fast)
+    tim = from_man_exp(tim, -wp, wp, round_fast)
     if alt:
         return mpc_pos((tre, tim), prec, rnd)
     else:
